@@ -198,10 +198,11 @@ pub fn pforest(dom: &WeakDom, roots: &[Ref]) -> Value {
         let parent = if roots.contains(r) { 0 } else { map.get(&inst.parent()).copied().unwrap_or(-1) };
         insts.push(json!({
             "class": inst.class.as_str(),
+            "class_b": bytes(inst.class.as_bytes()),
             "name": bytes(inst.name.as_bytes()),
             "parent": parent,
             "kids": inst.children().iter().map(|c| map.get(c).copied().unwrap_or(-1)).collect::<Vec<_>>(),
-            "props": props.into_iter().map(|(k, v)| json!([k, v])).collect::<Vec<_>>(),
+            "props": props.into_iter().map(|(k, v)| { let kb = bytes(k.as_bytes()); json!([k, v, kb]) }).collect::<Vec<_>>(),
         }));
     }
     json!({"roots": roots.iter().map(|r| map.get(r).copied().unwrap_or(-1)).collect::<Vec<_>>(), "inst": insts})
